@@ -260,8 +260,8 @@ B("B73", "C15-E3", [(MIN, '''                and not sd.node_data(node)["expande
 
 # ------------------------------------------------------------------------------------------ C20
 B("B31", "C20-M1", [(SD, "        self._update_node_depth(child_id, parent_id)\n", "")], "_ensure_edge: depth update dropped")
-B("B31b", "C20-M1", [(SD, '''            self.dag.edges[parent_id, child_id]["all_motifs"].append(stable_motif)  # type: ignore
-        self._update_node_depth(child_id, parent_id)''', '''            self.dag.edges[parent_id, child_id]["all_motifs"].append(stable_motif)  # type: ignore
+B("B31b", "C20-M1", [(SD, '''                all_motifs.append(stable_motif)  # type: ignore
+        self._update_node_depth(child_id, parent_id)''', '''                all_motifs.append(stable_motif)  # type: ignore
             self._update_node_depth(child_id, parent_id)''')], "depth updated only when the edge already existed")
 B("B32", "C20-M1", [(SD, '''        if parent_depth + 1 > current_depth:
             self.dag.nodes[node_id]["depth"] = parent_depth + 1''', '''        if parent_depth + 1 != current_depth:
@@ -360,6 +360,9 @@ B("B83", "C13-WHILE", [(MIN, '''            if successors[-1] in seen:
                 continue''')], "inner successor loop no longer pops seen nodes")
 B("B84", "C13-WHILE", [(BLK, '''            if sd.node_data(node)["expanded"]:
                 # We re-discovered a previously expanded node.
+                if node not in visited:
+                    visited.add(node)
+                    next_level = next_level | set(sd.node_successors(node))
                 continue
 
 ''', '')], "block expansion reprocesses expanded nodes")
@@ -557,9 +560,15 @@ V("V107", "De Morgan of the hot-lava predicate", edits=[(CTRL, "        if not i
 
 
 # ------------------------------------------------------------------------------------------ C02 / C10 / C11 / C17
-B("B30", "C02-H3", [(SD, '''        else:
-            self.dag.edges[parent_id, child_id]["all_motifs"].append(stable_motif)  # type: ignore
-''', '')], "further motifs of an existing edge are not recorded")
+B("B30", "C02-H3", [(SD, '''            if stable_motif not in all_motifs:
+                all_motifs.append(stable_motif)  # type: ignore
+''', '''            if stable_motif not in all_motifs:
+                pass
+''')], "further motifs of an existing edge are not recorded")
+B("B30c", "C02-H3", [(SD, '''            if stable_motif not in all_motifs:
+                all_motifs.append(stable_motif)  # type: ignore
+''', '''            all_motifs.append(stable_motif)  # type: ignore
+''')], "a re-inserted edge records its motif again (duplicates multiply the successions)")
 B("B30b", "C02-H3", [(SD, "                result.append({k: v for k, v in m.items() if k not in node_space})", "                result.append({k: v for k, v in m.items() if k in node_space})")],
   "reduced motifs keep exactly the wrong variables")
 B("B54", "C10-C", [(PN, "        f_val[best_var] = False\n", "        f_val[best_var] = True\n")], "clauses of the negative cofactor carry the positive literal")
@@ -598,7 +607,7 @@ VARIANTS.append({"id": "V-C17-1", "kind": "benign", "patch": "/verif/seeded/C17-
                  "what": "constructor reuses self.symbolic's context for the Petri net (same variable order)"})
 # ... and must fire as soon as the two networks can order their variables differently
 VARIANTS.append({"id": "B111", "kind": "break", "rules": ["C17-O"], "patch": "/verif/seeded/C17-1/patch.diff",
-                 "edits": [(IGU, "    return network.infer_valid_graph()", "    return BooleanNetwork.from_aeon(network.to_aeon()).infer_valid_graph()")],
+                 "edits": [(IGU, "    network = network.infer_valid_graph()\n", "    network = BooleanNetwork.from_aeon(network.to_aeon()).infer_valid_graph()\n")],
                  "what": "context of a name-ordered copy used to translate the caller's network"})
 
 
